@@ -5,7 +5,7 @@ cd "$(dirname "$0")"
 export GOFLAGS=-mod=mod GOPROXY=off GOSUMDB=off GOTOOLCHAIN=local GOWORK=off
 REPO="${VERIF_REPO:-/repo}"
 props="$*"
-[ -n "$props" ] || props=$(ls selftest/mutants selftest/benign 2>/dev/null | grep '^C' | sort -u)
+[ -n "$props" ] || props=$( (ls selftest/mutants selftest/benign 2>/dev/null; ls seeded 2>/dev/null | sed 's/-.*//') | grep '^C' | sort -u)
 fail=0; total=0
 run_one() { # kind prop patch
   kind=$1; prop=$2; patch=$3
@@ -17,8 +17,8 @@ run_one() { # kind prop patch
   total=$((total+1))
   if [ "$kind" = mutant ]; then
     if [ $rc -eq 1 ] && grep -q '^VIOLATION' "$scratch/log"; then
-      echo "caught   $prop $(basename $patch): $(grep -A1 '^VIOLATION' "$scratch/log" | grep obligation | head -1 | sed 's/^ *//' | cut -c1-150)"
-    else echo "MISSED   $prop $(basename $patch) (exit $rc)"; fail=1; fi
+      echo "caught   $prop $(basename $(dirname $patch))/$(basename $patch): $(grep -A1 '^VIOLATION' "$scratch/log" | grep obligation | head -1 | sed 's/^ *//' | cut -c1-150)"
+    else echo "MISSED   $prop $(basename $(dirname $patch))/$(basename $patch) (exit $rc)"; fail=1; fi
   else
     if [ $rc -eq 0 ]; then echo "quiet    $prop $(basename $patch)"; else echo "FALSE-ALARM $prop $(basename $patch): $(grep -A1 '^VIOLATION' "$scratch/log" | head -2 | tr '\n' ' ' | cut -c1-200)"; fail=1; fi
   fi
@@ -26,6 +26,7 @@ run_one() { # kind prop patch
 }
 for prop in $props; do
   for p in selftest/mutants/$prop/*.patch; do [ -f "$p" ] && run_one mutant $prop "$(pwd)/$p"; done
+  for p in seeded/$prop-*/patch.diff; do [ -f "$p" ] && run_one mutant $prop "$(pwd)/$p"; done
   for p in selftest/benign/$prop/*.patch; do [ -f "$p" ] && run_one benign $prop "$(pwd)/$p"; done
 done
 echo "selftest: $total patches, fail=$fail"
